@@ -723,6 +723,15 @@ func Choose(n int) int {
 	return o.chosen
 }
 
+// Epoch identifies the controlled execution the caller runs in (0: native mode). State that instrumented code keeps
+// in package-level variables and that a model wants to reset between executions compares it with the one it saw last.
+func Epoch() uint64 {
+	if s := enter(); s != nil {
+		return s.epoch
+	}
+	return 0
+}
+
 // Yield is a scheduling point that conflicts with every other Yield/Access(nil).
 func Yield() { Access(nil) }
 
